@@ -253,9 +253,53 @@ def _abs(ip, x):
     raise Unsupported("abs")
 
 
-@model("builtins.min", "builtins.max")
-def _minmax(ip, *xs, **kw):
-    raise Unsupported("min/max")
+def _minmax(ip, which, xs, kw):
+    """A-PY: max(a, b, ...) / max(iterable) keeps the FIRST extremal element: m = x if x > m else m (min: x < m); numbers only"""
+    if "key" in kw:
+        raise Unsupported("min/max with key=")
+    items = list(ip.iterate(xs[0])) if len(xs) == 1 else list(xs)
+    if not items:
+        if "default" in kw:
+            return kw["default"]
+        raise PyRaise("ValueError", (f"{which}() arg is an empty sequence",))
+    num = lambda v: (isinstance(v, (int, float)) and not isinstance(v, bool)) or (is_z3(v) and (z3.is_int(v) or z3.is_real(v)))
+    if not all(num(v) for v in items):
+        raise Unsupported("min/max of non-numeric values")
+    m = items[0]
+    for x in items[1:]:
+        if not is_z3(x) and not is_z3(m):
+            m = x if (x > m if which == "max" else x < m) else m
+        else:
+            srt = z3.RealSort() if any(isinstance(v, float) or (is_z3(v) and z3.is_real(v)) for v in (x, m)) else z3.IntSort()
+            a, b = to_sort(x, srt), to_sort(m, srt)
+            m = z3.If(a > b if which == "max" else a < b, a, b)
+    return m
+
+
+@model("collections.OrderedDict")
+def _ordered_dict(ip, src=(), **kw):
+    """collections.OrderedDict: a dict subclass (type(x) is not dict; JAX flattens it in insertion order, a plain dict in sorted-key order)"""
+    import collections
+
+    out = collections.OrderedDict()
+    if isinstance(src, dict):
+        out.update(src)
+    else:
+        for pair in ip.iterate(src):
+            k, v = list(ip.iterate(pair))
+            out[k] = v
+    out.update(kw)
+    return out
+
+
+@model("builtins.max")
+def _max(ip, *xs, **kw):
+    return _minmax(ip, "max", xs, kw)
+
+
+@model("builtins.min")
+def _min(ip, *xs, **kw):
+    return _minmax(ip, "min", xs, kw)
 
 
 @model("builtins.int")
@@ -443,8 +487,10 @@ def deep_copy(ip, x, memo=None):
 
 
 @model("copy.deepcopy")
-def _deepcopy(ip, x):
-    return deep_copy(ip, x)
+def _deepcopy(ip, x, memo=None):
+    """copy.deepcopy(x, memo): a caller-supplied memo (id -> replacement) is honoured like CPython does - including for interned singletons
+    (True, False, None, small ints), whose id is shared by EVERY occurrence in the object graph"""
+    return deep_copy(ip, x, dict(memo) if isinstance(memo, dict) else None)
 
 
 @model("copy.copy")
@@ -541,7 +587,7 @@ def container_method(ip, v, name):
         if name == "extend":
             return PyFn(lambda ip2, xs: v.extend(ip2.iterate(xs)), "list.extend")
         if name == "copy":
-            return PyFn(lambda ip2: list(v), "list.copy")
+            return PyFn(lambda ip2: SetList(list(v)) if isinstance(v, SetList) else list(v), "list.copy")
         if name == "pop":
             def pop(ip2, i=-1):
                 if not v:
@@ -571,6 +617,43 @@ def container_method(ip, v, name):
                             out.append(x)
                 return out
             return PyFn(union, "set.union")
+        if name in ("update", "discard", "remove", "difference", "intersection", "issubset", "copy") and isinstance(v, SetList):
+            same = lambda ip2, x, y: x is y or (not isinstance(x, (Obj, PyObj)) and ip2.equals(x, y) is True)  # noqa: E731
+
+            def decided(ip2, x, y):
+                if x is y:
+                    return True
+                if isinstance(x, (Obj, PyObj)) or isinstance(y, (Obj, PyObj)):
+                    return False
+                r = ip2.equals(x, y)
+                if r is True or r is False:
+                    return r
+                raise Unsupported(f"set.{name} with symbolic equality")
+
+            if name == "update":
+                def update(ip2, *others):
+                    for o in others:
+                        for x in ip2.iterate(o):
+                            if not any(decided(ip2, x, y) for y in v):
+                                v.append(x)
+                return PyFn(update, "set.update")
+            if name in ("discard", "remove"):
+                def discard(ip2, x):
+                    for i, y in enumerate(v):
+                        if decided(ip2, x, y):
+                            del v[i]
+                            return None
+                    if name == "remove":
+                        raise PyRaise("KeyError", (x,))
+                return PyFn(discard, "set." + name)
+            if name == "difference":
+                return PyFn(lambda ip2, *others: SetList([x for x in v if not any(decided(ip2, x, y) for o in others for y in ip2.iterate(o))]), "set.difference")
+            if name == "intersection":
+                return PyFn(lambda ip2, *others: SetList([x for x in v if all(any(decided(ip2, x, y) for y in ip2.iterate(o)) for o in others)]), "set.intersection")
+            if name == "issubset":
+                return PyFn(lambda ip2, other: all(any(decided(ip2, x, y) for y in ip2.iterate(other)) for x in v), "set.issubset")
+            if name == "copy":
+                return PyFn(lambda ip2: SetList(list(v)), "set.copy")
     if isinstance(v, dict):
         if name == "items":
             return PyFn(lambda ip2: [(k, v[k if not hasattr(v, "_keys") else id(k)]) for k in (v.keys())], "dict.items")
